@@ -73,6 +73,7 @@ def run(ctx):
     ns = [0, 1, 9, 10, 11, 99, 100, 999, 1000, 2147483647, 2147483648, 4294967295, 4294967296, 9223372036854775807, 999999999999999999, 1000000000000000000] + [rnd.getrandbits(rnd.choice([5, 17, 33, 47, 62])) for _ in range(24)]
     us = ns + [9223372036854775808, 18446744073709551615, 10000000000000000000, 9999999999999999999] + [rnd.getrandbits(64) for _ in range(16)]
     L = ['#include "au/au.hh"', '#include "au/io.hh"', '#include "au/units/meters.hh"', '#include "au/units/inches.hh"', '#include "au/units/feet.hh"', '#include "wire.hh"', "#include <sstream>", "#include <cstring>", "using namespace au;", decls,
+         'struct NoName : decltype(Inches{} * mag<5>()) { static constexpr const char label[] = ""; };\nconstexpr const char NoName::label[];',
          "template <typename S> void it(const char *kind, i128 n, const S &s) { const auto &l = detail::as_char_array(s); std::printf(\"{\\\"k\\\":\\\"itoa\\\",\\\"kind\\\":\\\"%s\\\",\\\"n\\\":%s,\\\"text\\\":\\\"%s\\\",\\\"size\\\":%d}\\n\", kind, wire(n).c_str(), l, (int)sizeof(l)); }",
          "template <typename Q> void st(const char *rep, i128 v, Q q) { std::ostringstream os; os << q; std::printf(\"{\\\"k\\\":\\\"stream\\\",\\\"R\\\":\\\"%s\\\",\\\"value\\\":%s,\\\"text\\\":\\\"%s\\\",\\\"label\\\":\\\"%s\\\"}\\n\", rep, wire(v).c_str(), json_escape(os.str().c_str()).c_str(), json_escape(unit_label(typename Q::Unit{})).c_str()); }",
          "int main() {"]
@@ -86,6 +87,8 @@ def run(ctx):
         for v in vals:
             lit = "%dULL" % v if rep == "uint64_t" else "%dLL" % v
             L.append('  st("%s", (i128)%s, meters((%s)%s)); st("%s", (i128)%s, make_quantity<Trinches>((%s)%s)); st("%s", (i128)%s, (inches * mag<3>() / mag<7>())((%s)%s));' % (rep, lit, rep, lit, rep, lit, rep, lit, rep, lit, rep, lit))
+            # units whose label is the empty string (everything cancels; a user unit labelled ""): value, one space, then nothing
+            L.append('  st("%s", (i128)%s, (feet / feet)((%s)%s)); st("%s", (i128)%s, make_quantity<UnitProductT<>>((%s)%s)); st("%s", (i128)%s, make_quantity<NoName>((%s)%s));' % (rep, lit, rep, lit, rep, lit, rep, lit, rep, lit, rep, lit))
     src = ctx.write("itoa.cc", "\n".join(L + ["  return 0;", "}"]) + "\n")
     for cfg in cfgs[:2]:
         exe = ctx.path("itoa_" + cfg)
